@@ -25,9 +25,10 @@ THEOREMS = {"Artap.Props.C05": [
     "C05_roundp_q_precision", "C05_round7_q_precision", "C05_roundp_q_fixpoint"]}
 AXIOMS_OK = []
 # second tie to the code (tools/py2coq.py + coq/theories/GenProofs): the source of Individual.calc_signed_costs is
-# translated on every run and proved equal to Model/Job.v signed_costs
+# translated on every run and proved equal to Model/Job.v signed_costs; so is the whole of Job.evaluate (front-end
+# tools/py2coq_eff.py: try/except as a match on the objective's outcome, raise as a result), = Model/Job.v job_evaluate
 from harness.core import translated_specs
-TRANSLATED = translated_specs("SignedCostsGen")
+TRANSLATED = translated_specs("SignedCostsGen", "JobGen")
 TRUSTED = [
     "Coq 8.16.1 kernel, vm_compute for model evaluation (no native_compute)",
     "hand-written model Model/Job.v tied to job.py / operators.py / individual.py / algorithm_sweep.py by this correspondence run",
